@@ -38,8 +38,8 @@ Fixpoint put (r : ref) (v : val) (h : heap) : heap :=
   | i :: r', a :: v' => put r' v' (write i a h)
   | _, _ => h
   end.
-Definition fresh (n : nat) (h : heap) : ref * heap :=
-  (seq (next h) n, mkH (mem h) (next h + n)).
+Definition bump (n : nat) (h : heap) : heap := mkH (mem h) (next h + n).
+Definition fresh (n : nat) (h : heap) : ref * heap := (seq (next h) n, bump n h).
 Definition ref_eqb (a b : ref) : bool := if list_eq_dec Nat.eq_dec a b then true else false.
 
 (* primitives: read the operands, then write [out] *)
@@ -326,7 +326,7 @@ Definition call_huber (gamma sigma : T) (x out : ref) (h : heap) : heap :=
   st2 (fun a o => pwhere m' (lin one (- sigma) a (get h5 sg)) o) x out out h5.    (* out[mask] = x[mask] - sigma * sign_x[mask] *)
 
 Definition mult_val (m : sval) (a : val) : val :=
-  match m with Sc c => scal c a | El v => e2 nmul v a end.
+  match m with Sc c => scal c a | El v => e2 (fun u w => w * u) a v end.
 
 Definition leaf_ip (l : leaf) (x out : ref) (h : heap) : heap :=
   match l with
